@@ -26,5 +26,5 @@ for p in $ids; do
 done
 git -C /repo checkout -- .
 # rebuild on the clean tree: the binaries must never be left built from a patched /repo
-./check build >/dev/null 2>&1
+[ -z "${TRY_NO_REBUILD:-}" ] && ./check build >/dev/null 2>&1
 echo "$name: caught by:${caught:- NONE}"
